@@ -426,6 +426,17 @@ pub fn run(_op: &str, a: &Ints) -> Ints {
             let oc = r.next();
             let x = read_number(&mut r);
             let y = read_number(&mut r);
+            // RL_PRESENT=2: when both operands are of one kind and list the same names in the same order, the second one
+            // SHARES the variable list of the first (as two numbers derived from the same variables do)
+            let y = if crate::numenc::present() == 2 {
+                match (&x, y) {
+                    (Number::Dual(a), Number::Dual(b)) => Number::Dual(share1(a, b, 1)),
+                    (Number::Dual2(a), Number::Dual2(b)) => Number::Dual2(share2(a, b, 1)),
+                    (_, y) => y,
+                }
+            } else {
+                y
+            };
             let mut out = vec![];
             match oc {
                 0 => write_number(&(&x + &y), &mut out),
